@@ -805,3 +805,25 @@ func (f *Func) TupleDefOf(obj types.Object) (ast.Expr, int, bool) {
 
 // Decompose returns the facts implied by e having the given truth value.
 func (f *Func) Decompose(e ast.Expr, truth bool) []Fact { return f.decompose(e, truth, nil, 0) }
+
+// AssignOf returns the single assignment statement that writes obj (nil when obj is
+// written more than once or never by an assignment).
+func (f *Func) AssignOf(obj types.Object) *ast.AssignStmt {
+	if obj == nil || f.assigns[obj] != 1 {
+		return nil
+	}
+	var out *ast.AssignStmt
+	ast.Inspect(f.Body, func(n ast.Node) bool {
+		s, ok := n.(*ast.AssignStmt)
+		if !ok {
+			return true
+		}
+		for _, l := range s.Lhs {
+			if id, ok := l.(*ast.Ident); ok && f.Info.ObjectOf(id) == obj {
+				out = s
+			}
+		}
+		return true
+	})
+	return out
+}
